@@ -740,6 +740,38 @@ def check_remove_node(ctx, res: Result, cls: str):
         res.ok("P-NODE", f, "incident records are removed", "incident", _where(v, v.fi.node))
     else:
         _absent(res, v, "P-NODE", "self.remove_edge(...)", "incident", "remove_node never removes the incident hyperedges", _where(v, v.fi.node))
+    # every incident record is removed: in a loop that removes (or schedules for removal) the records of the node, no iteration
+    # gets back to the loop head without having passed a removal - a `continue` in front of it leaves a hyperedge that still
+    # contains the removed node
+    for lp in [n for n in walk_no_nested(v.fi.node) if isinstance(n, ast.For)]:
+        hid = v.cfg.by_ast.get(id(lp))
+        if hid is None:
+            continue
+        inside = lambda x: any(x is y for st_ in lp.body for y in ast.walk(st_))
+        events = [c for c in calls if inside(c)]
+        # scheduling: `to_remove.append(edge)` for a list later handed to remove_edges / looped over with remove_edge
+        sched = set()
+        for c in calls:
+            for a_ in c.args[:1]:
+                if isinstance(a_, ast.Name):
+                    sched.add(a_.id)
+            l2 = v.enclosing(c, (ast.For,))
+            if l2 is not None and isinstance(l2.iter, ast.Name):
+                sched.add(l2.iter.id)
+        for n in walk_no_nested(v.fi.node):
+            if isinstance(n, ast.Call) and isinstance(n.func, ast.Attribute) and n.func.attr in ("append", "add") and isinstance(n.func.value, ast.Name) and n.func.value.id in sched and inside(n):
+                events.append(n)
+        events += [o.node for o in v.ops() if o.table == "_edge_list" and o.op == "del" and inside(o.node)]
+        ev_ids = {v.cfg_id(e) for e in events} - {None}
+        if not ev_ids:
+            continue
+        # does the loop run over the node's records?  (its iterable mentions the incidence table or a copy of it)
+        it_ = v.inline(lp.iter)
+        if not any((v.table_of(x) or (None, None))[1] in T.ADJ_TABLES[cls] for x in ast.walk(it_) if isinstance(x, (ast.Subscript, ast.Attribute))):
+            continue
+        starts = v.cfg.succ(hid, "iter")
+        skipped = any(s_ not in ev_ids and v.cfg.reaches_without(s_, hid, ev_ids) for s_ in starts)
+        res.check(not skipped, "P-NODE", f, norm(lp.iter), "every-incident", "an iteration of the loop over the node's hyperedges can end without removing (or scheduling the removal of) the hyperedge: it stays in the hypergraph and still contains the removed node", _where(v, lp))
     # P-SHRINK: id-keyed reads of the record must not follow its removal within the same loop iteration
     readers = []
     for n in walk_no_nested(v.fi.node):
